@@ -392,7 +392,9 @@ func c13Jobs(tier string) []*SeqJob {
 		j.Replay = func(ops []string) (string, string) { c, d, _, _ := exec(opIndex(alphabet, ops)); return c, d }
 		jobs = append(jobs, j)
 	}
-	jobs = append(jobs, c13ManyTagSetsJob(tier), c13StringLengthJob("C13", tier))
+	// (one of two destinations is dead: what reaches the healthy one arrives once - a batch re-sent after a failed
+	// send would arrive twice at the destinations ahead of the failing one)
+	jobs = append(jobs, c13ManyTagSetsJob(tier), c13StringLengthJob("C13", tier), c12DeadDestinationJob("C13", tier))
 	return jobs
 }
 
